@@ -91,3 +91,26 @@ PROPS["C02"] = dict(
     assumptions=HNSW_ASSUME + ["proto.Marshal/Unmarshal are an opaque codec (deep copy of the message): protobuf is assumed to round-trip well-typed messages",
                                "the outcome is read from a buffered notification channel created by the harness (delivery to a waiting caller is C11)"],
 )
+
+PROPS["C08"] = dict(
+    level="model_checking",
+    technique="bounded symbolic execution of go/ssa (gosmt) + SMT (z3): Save -> fragmenting reader -> Load on symbolic index states; float payloads travel as opaque bit-vector variables through the real encoding/binary code",
+    explanation="source state = every insert/remove history up to the bound (incl. empty index, removed entrypoint), metadata shapes incl. non-UTF8 and empty strings, header on/off, fresh/used target, reader delivering all / 1 / 2..5 bytes per call; loaded state compared field by field incl. links and byte counter; resave+reload compared again; key/value lengths around 2^8 / 2^16 as solver variables",
+    runs={
+        "quick": [
+            dict(pkg="./index", entry="VerifC08", bounds="ops=3,reader=0,metashapes=2", reach=["loaded", "end"]),
+            dict(pkg="./index", entry="VerifC08", bounds="ops=2,reader=1,header=0,target=0,metashapes=2", reach=["loaded", "end"]),
+            dict(pkg="./index", entry="VerifC08", bounds="ops=2,reader=2,header=1,target=1,metashapes=3", reach=["loaded", "end"]),
+            dict(pkg="./index", entry="VerifC08Len", bounds="", unwind=70000, reach=["len-end"]),
+        ],
+        "thorough": [
+            dict(pkg="./index", entry="VerifC08", bounds="ops=4,reader=0,metashapes=2,cfg=1", reach=["loaded", "end"]),
+            dict(pkg="./index", entry="VerifC08", bounds="ops=3,metashapes=3,cfg=0", reach=["loaded", "end"]),
+            dict(pkg="./index", entry="VerifC08", bounds="ops=3,reader=1,metashapes=2,cfg=4", reach=["loaded", "end"]),
+            dict(pkg="./index", entry="VerifC08Len", bounds="klo=250,khi=260,vlo=65530,vhi=65540", unwind=70000, reach=["len-end"]),
+        ],
+    },
+    outside="indexes with more than 3 items / 4 operations; more than 65535 metadata entries per item (uint16 count field; not constructible within the bound); memory use for foreign input; chunkings other than all/1/2..5 bytes per call",
+    assumptions=HNSW_ASSUME + ["bit patterns of symbolic floats are opaque variables: only their transport through byte streams (extract/concat) is modelled, no program compares them"],
+    replays_per_signature=1,
+)
